@@ -90,6 +90,15 @@ fn make_world(seed: u64) -> World {
         let xpub = Xpub::from_priv(&secp, &xpriv);
         xks.push(XK { xpriv, xpub, master_fp: master.fingerprint(&secp), opath });
     }
+    // one more extended key, only used by a corpus case: already at the deepest BIP32 level
+    {
+        let master = Xpriv::new_master(NetworkKind::Main, &r.bytes32()).unwrap();
+        let mut xpriv = master;
+        xpriv.depth = 255;
+        let mut xpub = Xpub::from_priv(&secp, &xpriv);
+        xpub.depth = 255;
+        xks.push(XK { xpriv, xpub, master_fp: master.fingerprint(&secp), opath: vec![] });
+    }
     World { secp, sks, xks }
 }
 
@@ -108,6 +117,8 @@ enum GKey {
         wild: u8,
         xprv: bool,
     },
+    /// a malformed path after the xpub (corpus only): the text and the same as model tokens
+    Raw { xk: usize, text: &'static str, toks: &'static str },
 }
 
 #[derive(Clone, Copy, PartialEq)]
@@ -130,6 +141,7 @@ impl GKey {
             GKey::Single { form: 0, .. } => "single-compressed+origin",
             GKey::Single { form: 1, .. } => "single-uncompressed",
             GKey::Single { .. } => "single-xonly",
+            GKey::Raw { .. } => "malformed-path",
             GKey::X { alts, wild, pre, post, xprv, .. } => {
                 if *xprv {
                     "xprv"
@@ -158,17 +170,22 @@ impl GKey {
             _ => 0,
         }
     }
-    fn has_duplicate_alts(&self) -> bool {
+    /// BIP32 depth reached by the deepest derivation this key expression asks for
+    fn total_depth(&self, w: &World) -> usize {
         match self {
-            GKey::X { alts, .. } => (1..alts.len()).any(|i| alts[..i].contains(&alts[i])),
-            _ => false,
+            GKey::X { xk, wild, .. } => {
+                w.xks[*xk].xpub.depth as usize
+                    + self.paths().iter().map(|p| p.len()).max().unwrap_or(0)
+                    + usize::from(*wild != 0)
+            }
+            _ => 0,
         }
     }
     fn has_wildcard(&self) -> bool { matches!(self, GKey::X { wild, .. } if *wild != 0) }
     /// the derivation path(s) after the xpub, one per alternative
     fn paths(&self) -> Vec<Vec<ChildNumber>> {
         match self {
-            GKey::Single { .. } => vec![],
+            GKey::Single { .. } | GKey::Raw { .. } => vec![],
             GKey::X { pre, alts, post, .. } => {
                 if alts.is_empty() {
                     vec![pre.iter().chain(post.iter()).cloned().collect()]
@@ -195,6 +212,9 @@ impl GKey {
                     1 => write!(s, "{}", PublicKey::new_uncompressed(pk)).unwrap(),
                     _ => write!(s, "{}", pk.x_only_public_key().0).unwrap(),
                 }
+            }
+            GKey::Raw { xk, text, .. } => {
+                write!(s, "{}{}", w.xks[*xk].xpub, text).unwrap();
             }
             GKey::X { xk, with_origin, pre, alts, post, wild, xprv } => {
                 let x = &w.xks[*xk];
@@ -269,6 +289,7 @@ impl GKey {
                     _ => PublicKey::new(pk.x_only_public_key().0.public_key(bitcoin::secp256k1::Parity::Even)),
                 })
             }
+            GKey::Raw { .. } => None,
             GKey::X { xk, alts, wild, xprv, .. } => {
                 if !alts.is_empty() {
                     return None;
